@@ -51,7 +51,10 @@ def judge(text, exp_text, exp_line, case, p=None):
     from smartquery import ParserError
     p = p or parser()
     try:
-        p.parse(text)
+        if case.get('via') == 'eval':
+            p.eval(text, {})
+        else:
+            p.parse(text)
         return [Failure('accepted', f'{text!r}: invalid by construction but accepted', case)]
     except ParserError as e:
         msg = str(e)
@@ -67,6 +70,11 @@ def judge(text, exp_text, exp_line, case, p=None):
         exp_text = ''       # a line break has no visible text to name; only its line is judged
     if exp_text not in msg:
         return [Failure('token-not-named', f'{text!r}: message {msg!r} does not name the offending token {exp_text!r}', case)]
+    # naming a token is not quoting the rest of the program: lines *after* the offending token's line must not be in the message
+    lines = text.split('\n')
+    following = '\n'.join(lines[exp_line:]).strip()
+    if len(following) >= 12 and following[:24] in msg:
+        return [Failure('message-quotes-following-lines', f'{text!r}: message {msg!r} contains the program text that follows the offending line', case)]
     m = re.search(r'(?i)\bline\W{0,3}(\d+)', msg)
     if not m:
         # no "line N" wording: accept the line number as any integer of the message that is not part of the token's text
@@ -105,7 +113,8 @@ def cases(draw):
             parts.append(unparse.minimal_stmt(stmts[0]))
         else:
             parts.append(unparse.minimal_stmt(draw(sentences.programs(max_depth=2, max_stmts=1))[0]))
-        parts.append(pick(['\n', '\n', ';', '\r\n', '\n\n', ' # c\n', '; ', '\r\n\r\n', ';;', '\n# only a comment\n']))
+        parts.append(pick(['\n', '\n', ';', '\r\n', '\n\n', ' # c\n', '; ', '\r\n\r\n', ';;', '\n# only a comment\n', ' # page\x0cbreak\n', '\n#\x0b\x1c\x1d\x1e\n',
+                          ' # nel\x85 ls\u2028 ps\u2029\n']))
     src = pick(['', '', '', '\n', '\n\n', '\r\n', ' \n\t\n', '# c\n']) + ''.join(parts[:-1])
     mode = pick(['operand', 'operand', 'binop', 'binop', 'closer', 'comma', 'trunc', 'dangling', 'assign-literal'])
     return src, mode, n(10 ** 6), n(12)
@@ -228,7 +237,7 @@ def run_job(job):
             return hyp.Result(discard=True)
         text, exp_text, exp_line = b
         cached = (pos_seed % 3 == 0)
-        case = {'text': text, 'exp_text': exp_text, 'exp_line': exp_line, 'prior': prior[0], 'cached': cached}
+        case = {'text': text, 'exp_text': exp_text, 'exp_line': exp_line, 'prior': prior[0], 'cached': cached, 'via': 'eval' if pos_seed % 2 else 'parse'}
         fails = judge(text, exp_text, exp_line, case, parser(cached))
         if cached:
             st.add('cases_on_a_parser_with_parse_cache')
